@@ -36,25 +36,26 @@ func cksum(bs []byte) uint32 {
 }
 
 type tcpConnSpec struct {
-	Kind       string   `json:"kind"` // honest garbage trunc
-	C, S       int      `json:"-"`
-	Key        string   `json:"key,omitempty"`
-	Seed       uint32   `json:"seed"`
-	AKind      int      `json:"akind"`
-	Chunks     [][2]int `json:"chunks,omitempty"`
-	Coalesce   bool     `json:"coalesce,omitempty"`
-	Corrupt    int      `json:"corrupt,omitempty"`     // wire chunk (1-based) whose ciphertext is corrupted
-	CorruptLen bool     `json:"corrupt_len,omitempty"` // ... in its sealed length block instead of its payload
-	N          int      `json:"n,omitempty"`
-	Fin        bool     `json:"fin"`
-	Validate   bool     `json:"validate,omitempty"`
-	TFailAfter int      `json:"target_write_fails_after,omitempty"` // the connection to the target accepts this many bytes, then every write fails (monitor-only cases)
-	ConnectOK  bool     `json:"connect_ok"`
-	TOut       [2]int   `json:"tout"`
-	TLate      [2]int   `json:"tlate,omitempty"` // a second block the target sends only after the handshake timeout has long passed (the client is silent and keeps the connection open)
-	TFirst     bool     `json:"target_first,omitempty"`
-	TFinFirst  bool     `json:"target_fin_first,omitempty"` // the target sends, half-closes at once; only then the client uploads
-	Seg        int      `json:"seg"`                        // 0 one write, 1 bytewise head, 2 random pieces
+	Kind        string   `json:"kind"` // honest garbage trunc
+	C, S        int      `json:"-"`
+	Key         string   `json:"key,omitempty"`
+	Seed        uint32   `json:"seed"`
+	AKind       int      `json:"akind"`
+	Chunks      [][2]int `json:"chunks,omitempty"`
+	Coalesce    bool     `json:"coalesce,omitempty"`
+	Corrupt     int      `json:"corrupt,omitempty"`     // wire chunk (1-based) whose ciphertext is corrupted
+	CorruptLen  bool     `json:"corrupt_len,omitempty"` // ... in its sealed length block instead of its payload
+	N           int      `json:"n,omitempty"`
+	Fin         bool     `json:"fin"`
+	Validate    bool     `json:"validate,omitempty"`
+	TFailAfter  int      `json:"target_write_fails_after,omitempty"` // the connection to the target accepts this many bytes, then every write fails (monitor-only cases)
+	ConnectOK   bool     `json:"connect_ok"`
+	TOut        [2]int   `json:"tout"`
+	TLate       [2]int   `json:"tlate,omitempty"` // a second block the target sends only after the handshake timeout has long passed (the client is silent and keeps the connection open)
+	TFirst      bool     `json:"target_first,omitempty"`
+	TFinFirst   bool     `json:"target_fin_first,omitempty"`      // the target sends, half-closes at once; only then the client uploads
+	Seg         int      `json:"seg"`                             // 0 one write, 1 bytewise head, 2 random pieces
+	SlowStartMs int      `json:"client_reads_after_ms,omitempty"` // the client starts reading only then (a large download sits in the kernel buffers when the server closes)
 }
 type tcpCaseSpec struct {
 	Cfg       []cfgKey      `json:"cfg"`
@@ -477,6 +478,9 @@ func runTCPConn(auth service.StreamAuthenticateFunc, sp *tcpConnSpec, tee *promT
 	go func() {
 		buf := make([]byte, 32768)
 		var err error
+		if sp.SlowStartMs > 0 {
+			time.Sleep(time.Duration(sp.SlowStartMs) * time.Millisecond)
+		}
 		for {
 			var n int
 			n, err = tc.Read(buf)
